@@ -79,6 +79,15 @@ var Meta = map[string]PropMeta{
 		Quick:     q(400, 50*time.Second),
 		Thorough:  q(20000, 15*time.Minute),
 	},
+	"C12": {
+		Level:     "exploration",
+		Technique: "deterministic simulation: a reference protocol-27 sender serves the real receiving client a file list and destination files constructed to hit every cell of the update decision table; the oracle is the set of file indices the real generator requests, read off the wire by the reference sender. Repeat-sync idempotence with real sender and receiver is decided by decoding both recorded wire directions",
+		Rule:      "table mode: per run one option combination of {-r} x {-t} x {-c} x {-I} (8 combinations, by run index) and the complete table {missing, same size + same content, other size, same size + other content} x {mtime equal, +1 s, -1 s, sub-second difference only, far future, far past} plus directory/symlink in the way, names and wire order random; oracle: requested set == model (missing | not regular | size differs | -c: content differs | -I | mtime differs at 1 s granularity). repeat mode (every 4th run): real A1 sync of a random tree twice with -t/-a/-tc: second run must request nothing and move no literal byte; then the size, mtime or content of one source file is changed and exactly the rule-mandated request must follow. Non-trivial = >= 10 decided entries / first run requested files",
+		Assumptions: []string{"refproto sender is the trusted base", "mtimes within the signed 32-bit range"},
+		Real:      realCommon, Stub: append([]string{"table mode: sending peer is the reference sender"}, stubCommon...),
+		Quick:     q(200, 50*time.Second),
+		Thorough:  q(10000, 15*time.Minute),
+	},
 	"C13": {
 		Level:     "exploration",
 		Technique: "deterministic simulation: real client and daemon in pull, push and local arrangements; seeded generation of trees and 0-4 plain-name rules given via --exclude/--include/-f; reference model of first-match-wins filter semantics as oracle on the destination entry set",
@@ -96,6 +105,15 @@ var Meta = map[string]PropMeta{
 		Real:      realCommon, Stub: stubCommon,
 		Quick:     q(150, 60*time.Second),
 		Thorough:  q(8000, 20*time.Minute),
+	},
+	"C15": {
+		Level:     "exploration",
+		Technique: "deterministic simulation with an independent protocol-27 implementation (cross-checked against tridge rsync 3.2.7): strict decoding of what the real sender emits in daemon, command and client-sender roles, and encoding of file lists with every legal compression choice for the real receiver, whose listing must reproduce the entries",
+		Rule:      "decode modes: random tree (names with arbitrary bytes, all entry types, foreign uids/gids, up to 150 entries) under a random subset of {-o -g -D -l -c -t -p}; the reference receiver decodes handshake, list, id lists and I/O-error word strictly, compares every field with lstat of the source, then requests every regular file by its own sorted index and must receive that file's bytes. encode mode: 1-30 (sometimes 200-1000; thorough 2000-10000) entries with names 1..4094 bytes, shared prefixes, sizes 0, 2^31-1, 2^31, 2^40, 2^62, every type and permission value, per-opportunity random choice of SAME_NAME/SAME_TIME/SAME_MODE/SAME_UID/SAME_GID/SAME_RDEV, 1- and 4-byte name lengths, forced 64-bit lengths, daemon or remote-shell handshake; the real receiver runs in list-only mode and its listing must equal the encoded entries in sorted order. Non-trivial = more than 2 entries",
+		Assumptions: []string{"refproto is the trusted base", "encode mode observes the receiver through its list-only output (mode string, size, mtime, name); uid/gid/rdev/link decoding is observed indirectly: a mis-decoded optional field desynchronises the following entries"},
+		Real:      realCommon, Stub: append([]string{"peer: reference receiver / sender"}, stubCommon...),
+		Quick:     q(300, 50*time.Second),
+		Thorough:  q(10000, 20*time.Minute),
 	},
 	"C16": {
 		Level:     "exploration",
